@@ -58,6 +58,20 @@ theorem allowed_of_allowedB {b1 b2 : Basis} {o1 o2 : Bool} (h : allowedB b1 b2 o
     Allowed b1 b2 (if o1 then 1 else 0) (if o2 then 1 else 0) := by
   cases b1 <;> cases b2 <;> cases o1 <;> cases o2 <;> simp_all [allowedB, Allowed]
 
+/-! ### specification vocabulary for the Bell pair -/
+
+open SqVerif.Stab (POp P1) in
+def opII : POp := ⟨0, [(false, false), (false, false)]⟩
+open SqVerif.Stab (POp P1) in
+def opXX : POp := ⟨0, [(true, false), (true, false)]⟩
+open SqVerif.Stab (POp P1) in
+def opZZ : POp := ⟨0, [(false, true), (false, true)]⟩
+open SqVerif.Stab (POp P1) in
+def opMinusYY : POp := ⟨2, [(true, true), (true, true)]⟩
+/-- the Pauli letter measured for a basis: X, Y (measured as Z after `K`), Z -/
+def letter : Basis → SqVerif.Stab.P1
+  | .X => (true, false) | .Y => (true, true) | _ => (false, true)
+
 /-! ### function update -/
 
 @[simp] theorem upd2_same {α : Type} (f : Nat → Nat → α) (a b : Nat) (v : α) : upd2 f a b v a b = v := by simp [upd2]
@@ -799,5 +813,40 @@ theorem matched_core {cfg : Cfg} (hm : Matched cfg) {st : State} {evs : List Ev}
   simp only [State.sentFrom, List.getElem?_map, hp, Option.map_some, Option.some.injEq] at hsent
   refine ⟨p, qid, hp, rfl, ?_, seq_of_index hi a s b t i p hp, hi.good a s b t p (List.mem_of_getElem? hp)⟩
   rw [hqid, hsent]
+
+/-- every observation of a run of `cmd_epr` events that all carry create id `c` and type `typ` is a creator
+result with that create id and type -/
+theorem run_pairs_obs {a b s t : Nat} {typ : ReqType} {c : Nat} {evs : List Ev}
+    (hall : ∀ e, e ∈ evs → ∃ q r, e = Ev.pair a b s t typ c q r) {st st' : State} {obs : List Obs}
+    (h : run st evs = .ok (st', obs)) : ∀ o, o ∈ obs → ∃ e, o = .created e ∧ e.createId = c ∧ e.typ = typ := by
+  induction evs generalizing st obs with
+  | nil =>
+    simp only [run, Except.ok.injEq, Prod.mk.injEq] at h
+    intro o ho
+    rw [← h.2] at ho
+    cases ho
+  | cons e es ih =>
+    simp only [run] at h
+    split at h
+    · cases h
+    · rename_i s1 o1 hs1
+      split at h
+      · cases h
+      · rename_i s2 os hr
+        simp only [Except.ok.injEq, Prod.mk.injEq] at h
+        obtain ⟨rfl, rfl⟩ := h
+        intro o ho
+        rcases List.mem_cons.mp ho with rfl | ho
+        · obtain ⟨q, r, rfl⟩ := hall e List.mem_cons_self
+          simp only [step] at hs1
+          split at hs1
+          · rename_i s3 e3 hp
+            simp only [Except.ok.injEq, Prod.mk.injEq] at hs1
+            obtain ⟨p, hsp⟩ := pair_spec hp
+            refine ⟨e3, hs1.2.symm, ?_, ?_⟩
+            · rw [← hsp.info]; exact hsp.ok.cid_c
+            · rw [← hsp.info]; exact hsp.ok.typ_c
+          · cases hs1
+        · exact ih (fun e' he' => hall e' (List.mem_cons_of_mem _ he')) hr o ho
 
 end SqVerif.Epr
